@@ -586,6 +586,10 @@ let op_cut r = function
       (* stopped early = the scan ended before the cut input was exhausted *)
       let consumed_all = (unhex c_suffix = "" && unhex c_unread = "") in
       (* error *)
+      (* a scan error may only be reported for a complete line, or when the stream simply ended: a reader
+         failure delivered with / after an unterminated fragment is reported as that failure *)
+      if signal <> "eof" && c_err = "scan" && not (String.contains (unhex c_suffix) '\n') then
+        flag r "prop:C10:reader-failure-replaced-by-scan-error";
       (match signal with
        | "eof" ->
          if not (c_err = "eof" || c_err = "scan" || (not consumed_all && c_err = f_err)) then flag r "prop:C10:error-class"
@@ -632,6 +636,10 @@ let op_names r = function
       let before = goroutines_of (parse_sx s_off) and after = goroutines_of (parse_sx s_on) in
       if not (M.no_names before) then flag r "prop:C15:named-with-option-off";
       if not (M.c15_ok before after) then flag r "prop:C15:labelling";
+      (* what "classified as pointer" means is fixed by the value alone (512 KiB < v < 2^63 - 1) *)
+      List.iter (fun (a : M.arg) ->
+        match a with M.MkArg (_, _, v, p, tl, _, _, _, _) ->
+          if not tl && p <> M.is_ptr_value v then flag r "prop:C15:pointer-classification") (M.all_scalars after);
       if not (M.no_names after) then tag r "named";
       tag r (Printf.sprintf "gs=%d" (min 9 (List.length after)));
       (match M.scan_snapshot true (source_of content "-" "eof") with
@@ -904,6 +912,20 @@ let op_augment r = function
       let t32 = tab (List.nth tabs 0) and t64 = tab (List.nth tabs 1) in
       let look t v = match List.assoc_opt (string_of_n v) t with Some s -> s | None -> bytes_of_string "?float?" in
       let frs = String.split_on_char '|' frames in
+      (* real tracebacks (op progs) end with frames the generator does not describe: pad with "skip" *)
+      let frs = if List.length frs < List.length ic && List.exists (fun f -> f = "skip") frs
+                then frs @ List.init (List.length ic - List.length frs) (fun _ -> "skip") else frs in
+      (* \001 in an expectation stands for some pointer printed as 0x<hex> *)
+      let rec wild_match (pat : string) (s : string) : bool =
+        match String.index_opt pat '\001' with
+        | None -> pat = s
+        | Some i ->
+          let pre = String.sub pat 0 i and rest = String.sub pat (i + 1) (String.length pat - i - 1) in
+          is_prefix (pre ^ "0x") s &&
+          (let j = ref (String.length pre + 2) in
+           let st = !j in
+           while !j < String.length s && (match s.[!j] with '0'..'9' | 'a'..'f' -> true | _ -> false) do incr j done;
+           !j > st && wild_match rest (String.sub s !j (String.length s - !j))) in
       if List.length frs <> List.length ic || List.length pc <> List.length ic then flag r "driver:augment-frames"
       else begin
         let k = ref 0 in
@@ -914,6 +936,7 @@ let op_augment r = function
           if sx_to_string (sx_of_call (strip c)) <> sx_to_string (sx_of_call (strip p)) then flag r "prop:C19:frame-changed";
           if p.M.cArgs.M.processed <> [] then flag r "driver:augment-plain-processed";
           (match String.split_on_char ';' fr with
+           | ["skip"] -> ()
            | [types; extra; expected] ->
              let impl_proc = List.map string_of_bytes c.M.cArgs.M.processed in
              (* model *)
@@ -932,7 +955,7 @@ let op_augment r = function
              if e <> "-" then begin
                tag r "truth";
                let want = if e = "" then [] else String.split_on_char '\000' e in
-               if want <> impl_proc then begin
+               if not (List.length want = List.length impl_proc && List.for_all2 wild_match want impl_proc) then begin
                  flag r "prop:C19:not-truthful";
                  if r.detail = "" then r.detail <- Printf.sprintf "frame %d: want [%s] got [%s]" !k (String.concat " | " want) (String.concat " | " impl_proc)
                end
